@@ -2,6 +2,7 @@ package main
 
 import (
 	"fmt"
+	"strings"
 	"time"
 
 	admissionv1 "k8s.io/api/admission/v1"
@@ -12,7 +13,9 @@ import (
 )
 
 // names shared between the three exemption lists and the request, so that cross-list matches can happen
-var namePool = []string{"alpha", "beta", "gamma", "exns", "exuser", "exrc"}
+var namePool = []string{"alpha", "beta", "gamma", "exns", "exuser", "exrc",
+	// long but legal names: 63, 64 and 100 bytes (user names are unbounded, runtime class names go up to 253)
+	"n63-" + strings.Repeat("a", 59), "system:serviceaccount:" + strings.Repeat("b", 42), "rc100." + strings.Repeat("c", 94)}
 
 func nearMiss(r *Rng, s string) string {
 	switch r.Intn(6) {
@@ -64,7 +67,9 @@ func genDefaults(r *Rng) admissionapi.PodSecurityDefaults {
 		return admissionapi.PodSecurityDefaults{Enforce: "privileged", EnforceVersion: "latest", Audit: "privileged", AuditVersion: "latest", Warn: "privileged", WarnVersion: "latest"}
 	}
 	lv := func() string { return pick(r, validLevels) }
-	vv := func() string { return pick(r, []string{"latest", "latest", "v1.0", "v1.7", "v1.25", "v1.26", "v1.32", "v1.40"}) }
+	vv := func() string {
+		return pick(r, []string{"latest", "latest", "v1.0", "v1.7", "v1.25", "v1.26", "v1.32", "v1.40"})
+	}
 	return admissionapi.PodSecurityDefaults{Enforce: lv(), EnforceVersion: vv(), Audit: lv(), AuditVersion: vv(), Warn: lv(), WarnVersion: vv()}
 }
 
